@@ -209,7 +209,11 @@ func (s *histSession) call(res *vh.Result, i int) (c callObs) {
 	argText := in.String()
 	leaky := o.root.String() // what the transport put into the error: the URL with the real credentials
 	var r *url.URL
-	e := &url.Error{Op: "Get", URL: leaky, Err: errors.New("cause")}
+	// Op and Err of the error are input too: they vary with the step
+	histOps := []string{"Get", "parse", "Post", "", "dial", "read", "fetching", "gEt", "Head"}
+	hop := histOps[len(s.trail)%len(histOps)]
+	herr, _ := makeInner([]string{"cause", "nil", "wrapped", "urlerror"}[len(s.trail)%4], leaky)
+	e := &url.Error{Op: hop, URL: leaky, Err: herr}
 	if pv, panicked := vh.Try(func() {
 		r = urlutil.RedactUserinfo(in)
 		urlutil.RedactUserinfoInURLError(in, e)
@@ -521,7 +525,7 @@ func stressHistories(res *vh.Result, nG, iters int) (calls int) {
 						st.wrong = append(st.wrong, r.String())
 					}
 				}
-				e := &url.Error{Op: "Get", URL: text, Err: errors.New("cause")}
+				e := &url.Error{Op: []string{"Get", "parse", "", "read"}[i%4], URL: text, Err: errors.New("cause")}
 				urlutil.RedactUserinfoInURLError(in, e)
 				if e.URL != wantText && len(st.wrong) < 3 {
 					st.wrong = append(st.wrong, "error text: "+strings.Clone(e.URL))
@@ -529,7 +533,7 @@ func stressHistories(res *vh.Result, nG, iters int) (calls int) {
 				// a second URL of this goroutine whose text gets shorter, equally long and longer; the errors are kept
 				in2 := *in
 				in2.Path = "/api/v1/" + strings.Repeat("x", (i*7+g)%40)
-				e2 := &url.Error{Op: "Get", URL: in2.String(), Err: errors.New("cause")}
+				e2 := &url.Error{Op: []string{"parse", "Get", "dial"}[i%3], URL: in2.String(), Err: errors.New("cause")}
 				urlutil.RedactUserinfoInURLError(&in2, e2)
 				st.errs = append(st.errs, keptErr{e: e2, snapURL: strings.Clone(e2.URL), snapMsg: strings.Clone(e2.Error())})
 				if len(st.errs) > 1 {
